@@ -63,9 +63,10 @@ def FUNCTIONS():
 BOUNDS = {'programs': 'trees 0 (flat), 1 (group + following phase), 2 (subtest) of family T; one phase deviates with any of 13 behaviour kinds',
           'callbacks': '3 recording callbacks, any subset raises; a callback may itself call execute() again (overlap while the first call is still in its callbacks)',
           'test_start': 'none / lambda returning a dut id / phase setting the dut id / phase that raises',
+          'SIGINT': 'the real Test.handle_sig_int runs inside the first TestExecutor.wait() of execute(), before the executor did anything or just after it finished; any subset of callbacks raises',
           'histories': 'one or two consecutive execute() calls on the same Test; an overlapping execute() from inside a phase body or from inside an output callback'}
 ASSUMPTIONS = ['single OS thread: the overlapping call is made re-entrantly from a phase body / callback of the running call']
-OUTSIDE = ['KeyboardInterrupt / SIGINT path (C04)', 'profiling', 'real thread timing']
+OUTSIDE = ['SIGINT at moments other than before the executor started / just after it finished (the executor is synchronous here; abort moments inside the run are C04)', 'profiling', 'real thread timing']
 
 
 class CallbackBoom(Exception):
@@ -247,6 +248,93 @@ def c_execute_contract(ti: int, ts: int, i1: int, v1: int, r0: bool, r1: bool, r
     return ok
   finally:
     CFG.update({'raise': (False, False, False), 'reenter_cb': -1, 'reenter_phase': False})
+
+
+def _wait_with_sigint(late):
+  """TestExecutor.wait whose first call behaves as if SIGINT arrived while execute() was waiting: the real
+  Test.handle_sig_int runs (it aborts every registered test and raises KeyboardInterrupt once).  late=False: the
+  signal arrives before the executor did anything; late=True: just after the executor finished."""
+  orig = TE.TestExecutor.wait
+  state = {'n': 0}
+
+  def wait(self):
+    state['n'] += 1
+    if state['n'] == 1:
+      if late:
+        orig(self)
+      TD.Test.HANDLED_SIGINT_ONCE = False
+      TD.Test.handle_sig_int(2, None)
+      return None
+    return orig(self)
+  return orig, wait, state
+
+
+@cond(timeout=900, split={'ti': range(3)})
+def c_sigint_while_waiting(ti: int, late: bool, r0: bool, r1: bool, r2: bool) -> bool:
+  """
+  pre: 0 <= ti <= 2
+  post: _
+  """
+  # SIGINT on the main thread while execute() waits for the executor: execute() still hands the complete, final
+  # record to every callback exactly once (after the executor really finished), cleans up, and re-raises
+  # KeyboardInterrupt.
+  H.reset_globals()
+  test = _test(ti)
+
+  def setup():
+    H.SCRIPT.reset()
+    H.SCRIPT.bad_index = 1
+    for node in T.phases_of(T.ALL[ti]):
+      H.SCRIPT.beh[node[1]] = [KINDS[0][0], 0]
+      H.SCRIPT.meas[node[1]] = [TC._meas(KINDS[0][1])]
+  CFG.update({'raise': (r0, r1, r2), 'reenter_cb': -1, 'reenter_phase': False})
+  orig, wait, state = _wait_with_sigint(late)
+  TE.TestExecutor.wait = wait
+  interrupted = False
+  other = None
+  try:
+    try:
+      _execute_once(test, 0, setup)
+    except KeyboardInterrupt:
+      interrupted = True
+    except Exception as e:      # anything else escaping execute() is a failure of the contract
+      other = e
+  finally:
+    TE.TestExecutor.wait = orig
+    TD.Test.HANDLED_SIGINT_ONCE = False
+    CFG.update({'raise': (False, False, False), 'reenter_cb': -1, 'reenter_phase': False})
+  reach()
+  if other is not None or not interrupted:
+    return False
+  calls = OBS.calls
+  if [c[0] for c in calls] != [0, 1, 2] or len(set(c[1] for c in calls)) != 1:
+    return False
+  for _, _, s in calls:
+    if s['outcome'] is None or s['end'] is None or s['start'] is None or s['dut'] is None:
+      return False
+    if s['running_phase'] is not None:
+      return False
+    for (name, outcome, result, options, st, en) in s['phases']:
+      if outcome is None or result is None or en is None:
+        return False
+  if not late and calls[0][2]['outcome'] is not TR.Outcome.ABORTED:
+    return False
+  if test._executor is not None or test.uid is not None:
+    return False
+  if any(t is test for t in TD.Test.TEST_INSTANCES.values()):
+    return False
+  lg = logging.getLogger(htf_logs.LOGGER_PREFIX)
+  return not any(isinstance(h, htf_logs.RecordHandler) for h in lg.handlers)
+
+
+@cond(timeout=120, expect='refute')
+def w_sigint_while_waiting(late: bool, r0: bool) -> bool:
+  """
+  post: _
+  """
+  ok = c_sigint_while_waiting(1, late, r0, False, False)
+  # witness: early SIGINT, first callback raising, and the whole contract (KeyboardInterrupt, ABORTED record once to all) held
+  return not (ok and not late and r0 and OBS.calls[2][2]['outcome'] is TR.Outcome.ABORTED)
 
 
 @cond(timeout=600, split={'where': range(4)})
